@@ -143,13 +143,14 @@ func (ex *Exec) checkDisciplines(st *State, fr *Frame) {
 	if props, ok := ct.Discipline["locks-released"]; ok {
 		held := false
 		for _, n := range st.Held {
-			if n > 0 {
+			if n != 0 {
+				// > 0: still held; < 0: an unlock without the matching lock (a run-time fatal error in Go)
 				held = true
 			}
 		}
 		// deferred unlocks run before the frame is popped, so this is the state the caller sees
 		ob := &Obligation{Name: fmt.Sprintf("%s/ghost:held/%s", ex.fnName(fr.Fn), site), Kind: "ghost", Goal: BoolC(!held), Props: props, Fn: fr.Fn.String(),
-			Note: "a lock acquired by this function is still held at this return"}
+			Note: "a lock acquired by this function is still held at this return, or a lock was released that was not held"}
 		ex.record(st, ob)
 	}
 }
